@@ -331,6 +331,21 @@ def seg_cases(spec, pi, V, closed, A, B, scale, kl, nsingle=2, oracle_extra=None
 
     cases.append(Case(spec, Line("xs.poly").b(closed).vec(pi.ref).vec(pi.n).vecs(V), poly_impl, mode="rat",
                       klass="xs.poly/" + kl + ("/closed" if closed else "/open"), trivial=trivial, scale=scale))
+    # the same question asked of the reversed polyline, built by `flipped()` from a polyline whose derived quantities have
+    # already been looked at: it is the polyline of the reversed vertex list (the model is given that list)
+    if len(V) >= 2:
+        Vr = V[::-1].copy()
+
+        def flipped_impl():
+            p0 = Polyline(shcopy(V), is_closed=closed)
+            p0.total_length, p0.segments, p0.num_e   # noqa: B018  (a caller that has used the polyline before)
+            pts, idx = p0.flipped().intersect_plane(plane, ret_edge_indices=True)
+            out = [int(len(idx))]
+            for j, row in zip(idx, np.asarray(pts).reshape(-1, 3)):
+                out += [int(j)] + flat(row)
+            return out
+        cases.append(Case(spec, Line("xs.poly").b(closed).vec(pi.ref).vec(pi.n).vecs(Vr), flipped_impl, mode="rat",
+                          klass="xs.poly-flipped/" + kl + ("/closed" if closed else "/open"), trivial=trivial, scale=scale))
     cases[0].oracle = lambda _r: oracle_segments(pi, V, closed, A, B, scale)
     return cases
 
